@@ -346,7 +346,7 @@ def mps_from_tensor(ten, nr_phys=1, canonize='last', opts_svd=None) -> MpsMpoOBC
         ten = S @ V
 
     psi.factor = ten.norm()
-    psi.A[psi.last] = ten / psi.factor
+    psi.A[psi.last] = ten / psi.factor if psi.factor else ten  # a zero tensor stays a zero state (factor 0)
 
     if canonize == 'first':
         psi.canonize_(to='first', normalize=False)
